@@ -286,6 +286,11 @@ func (s *Stats) NonTrivialDistinct(n int, sample any) {
 	}
 }
 
+// LiveFor returns the id of the live open finding whose signature matches sig
+// ("" if none): used by the native fuzz targets, which handle failures outside
+// rapid.
+func (s *Stats) LiveFor(sig string) string { return s.liveFindingFor(sig) }
+
 // IsLive reports whether the open known finding id is present on this tree
 // (its probe failed with its signature). Generators use it to exclude the
 // finding's input class by construction.
@@ -317,7 +322,7 @@ func sigMatches(findingSig, sig string) bool {
 
 // Probes runs the probe of every listed finding of this property through run
 // (the library-free oracle entry point: decode the case, return its failure).
-func (s *Stats) Probes(t *testing.T, run func(raw json.RawMessage) *Failure) {
+func (s *Stats) Probes(t testing.TB, run func(raw json.RawMessage) *Failure) {
 	for _, f := range s.findings {
 		if len(f.Probe) == 0 || string(f.Probe) == "null" {
 			continue
